@@ -17,6 +17,14 @@ Proof obligations: lean/RtcVerif/Props/C13.lean.  Correspondence:
   through the real optimisation `PIMixin`; `timeseries_export.xml` is parsed and every exported
   alias series (also under a mapped `-name` id) must be sign * the series of the quantity.
 
+* data read under alias names (harness/c13_io.py): generated models run through the real optimisation
+  `CSVMixin` -- plain and with `csv_ensemble_mode = True`, several members -- and the simulation
+  `CSVMixin`, with `timeseries_import.csv` / `initial_state.csv` columns named through a random name
+  (canonical, alias, negated alias) of each quantity; `history / seed / constant_inputs / bounds /
+  get_timeseries / timeseries_at` (resp. `get_var` after `initialize / update`) through every name
+  must be sign * what the file gives; model correspondence: the Lean `AliasDict` updated with the
+  file columns and read through every name.
+
 * second tie: harness/translate_c13.py translates the small methods of `AliasDict` from the source
   into lean/RtcVerif/Gen/AliasDict.lean on every run, with theorems `...Gen_eq_model` (extra
   proof obligations).
@@ -557,7 +565,7 @@ def stream_exhaustive(c, length):
 
 
 def run(c):
-    from . import c13_models, c13_pi
+    from . import c13_io, c13_models, c13_pi
 
     c.rule = (
         "random consistent alias graphs (2-7 names; chains, stars, random edges, negations, `-name` keys) built "
@@ -566,7 +574,10 @@ def run(c):
         "number (incl. 0, 1, nan, +-inf), bound pair (floats and Timeseries), list, ndarray, Timeseries, "
         "malformed tuple; all sequences of a fixed length over three names (exhaustive stream); generated "
         "Modelica models with negated alias chains, non-unit nominals and multi-point histories in optimisation "
-        "(dictionaries, state goals, accessors before/at/after t0 at 3 probe vectors) and simulation.  "
+        "(dictionaries, state goals, accessors before/at/after t0 at 3 probe vectors) and simulation; generated "
+        "models with aliased states / controls / constant inputs / algebraics run through the optimisation CSVMixin "
+        "(plain and csv_ensemble_mode with 2-3 members) and the simulation CSVMixin, every column of "
+        "timeseries_import.csv / initial_state.csv headed by a random (possibly negated) name of its quantity.  "
         "distinct = (stream, signedness, length, op kinds, error pattern) resp. (model shape, observable) tuples"
     )
     c.assumptions = [
@@ -585,6 +596,7 @@ def run(c):
     stream_random(c, c.n(400, 6000))
     c13_models.run_models(c, c.n(8, 80))
     c13_pi.run_pi(c, c.n(4, 30))
+    c13_io.run_io(c, c.n(4, 40))
     c.exhaustive = False
     c.extra["exhaustive_subspace"] = (
         "all %d^%d operation sequences of length %d (hence all shorter ones) over the names a, b, c with "
